@@ -66,20 +66,48 @@ def strip_lean_comments(src):
     return src
 
 # further theorem modules owned by a property: (file under RitiModel/, namespace, lake module)
+REAL = (os.path.join("Props", "RealEnv.lean"), "Real", "RitiModel.Props.RealEnv")
 EXTRA = {
     "C06": [(os.path.join("Props", "C06Phonetic.lean"), "C06P", "RitiModel.Props.C06Phonetic"),
             (os.path.join("Props", "C06Fixed.lean"), "C06F", "RitiModel.Props.C06Fixed")],
     # the dictionary look-up (regex generator, reader, matcher) inside the model
     "C07": [(os.path.join("Props", "Regex.lean"), "Regex", "RitiModel.Props.Regex")],
     "C08": [(os.path.join("Props", "Regex.lean"), "Regex", "RitiModel.Props.Regex"),
-            (os.path.join("Props", "RegexTotal.lean"), "Regex", "RitiModel.Props.RegexTotal")],
-    "C16": [(os.path.join("Props", "Bijoy.lean"), "Bijoy", "RitiModel.Props.Bijoy")],
+            (os.path.join("Props", "RegexTotal.lean"), "Regex", "RitiModel.Props.RegexTotal"),
+            (os.path.join("Props", "RegexFast.lean"), "Regex", "RitiModel.Props.RegexFast"), REAL],
+    "C16": [(os.path.join("Props", "Bijoy.lean"), "Bijoy", "RitiModel.Props.Bijoy"), REAL],
+    # the parameters instantiated with the real transliterator / dictionary look-up / encoder (provisos discharged to the data files)
+    "C03": [REAL], "C17": [REAL], "C18": [REAL], "C19": [REAL],
     # the JSON fragment of the per-user files (reader, writer, UTF-8 layer, crash points of the save)
     "C09": [(os.path.join("Props", "Json.lean"), "Json", "RitiModel.Props.Json")],
     "C10": [(os.path.join("Props", "Json.lean"), "Json", "RitiModel.Props.Json")],
 }
 # kernel-checked sample modules (examples only): built with the property, the dictionary ones only in the thorough tier
 SAMPLES = {"C16": (["RitiModel.Props.BijoySamples"], ["RitiModel.Props.BijoySamplesDict", "RitiModel.Props.BijoySamplesDict2"])}
+
+# translator items whose table is ALSO compared with the implementation on its complete (finite) domain by stream `tie`
+DYNAMIC_TIE = {"keycodes", "layoutkeys", "rankcmp"}
+# translator items that only feed RitiModel/Tie.lean (literals of the hand-written model)
+SOFT_TIE = {"logicconsts"}
+
+# which theorems of RitiModel/Tie.lean matter to which property: by the part of the model the property's theorems are about
+_TIE_PH = {"last_rank_numbers", "length_guards", "joining_characters", "emoji_rank_starts"}      # phonetic candidate list
+_TIE_FL = {"fixed_truncation", "emoji_rank_starts"}                                                 # fixed candidate list
+_TIE_PKV = {"sign_vowel_tables", "special_values"}                                                  # process_key_value
+_TIE_LOCAL = {"C03": _TIE_PH, "C04": _TIE_PKV, "C07": _TIE_PH, "C08": _TIE_PH, "C09": _TIE_PH, "C12": _TIE_PKV, "C13": _TIE_PKV,
+              "C14": _TIE_PKV, "C15": _TIE_FL | _TIE_PKV}
+def tie_scope(pid):
+    """properties about whole histories of the whole engine (C01 C02 C05 C06 C10 C11 C16 C17 C18 C19) depend on every literal"""
+    return _TIE_LOCAL.get(pid, _TIE_PH | _TIE_FL | _TIE_PKV)
+
+# which definitions of Gen/CharClasses.lean matter to which property (same idea as tie_scope)
+_CC_PKV = {"vowelSet", "karSet", "pureConsonantSet", "marksSet", "ligatureKarSet", "leftStandingKarSet"}          # process_key_value, reph, kar order
+_CC_PH = {"metaSet", "vowelSet", "karSet", "punctOverrideSet", "phoneticFirstLetterTable"}                         # phonetic list, joining, selection override
+_CC_FS = {"cleanSet", "regexClassSet", "needCharsUpto", "fixedFirstCharTable", "metaSet"}                          # fixed dictionary search
+_CC_LOCAL = {"C03": {"metaSet"}, "C04": _CC_PKV, "C07": _CC_PH, "C08": _CC_PH, "C09": _CC_PH, "C12": _CC_PKV, "C13": _CC_PKV,
+             "C14": _CC_PKV, "C15": _CC_PKV | _CC_FS}
+def cc_scope(pid):
+    return _CC_LOCAL.get(pid, _CC_PKV | _CC_PH | _CC_FS)
 
 def theorems_of(pid):
     out = []
@@ -98,12 +126,14 @@ def forbidden_tokens():
             hits.append(f"{os.path.relpath(f, VERIF)}: {m.group(0).strip()}")
     return hits
 
-def audit(pid):
+def audit(pid, skip=frozenset()):
     """returns (ok, [{name, axioms}], problems)"""
     ths = theorems_of(pid)
+    if skip: ths = [t for t in ths if not t.startswith("Riti.Tie.")]
+    else: ths = [t for t in ths if not t.startswith("Riti.Tie.") or t[len("Riti.Tie."):] in tie_scope(pid)]
     tmp = os.path.join(OUT, pid, "audit.lean")
     with open(tmp, "w") as f:
-        f.write(f"import RitiModel.Props.{pid}\nimport RitiModel.Tie\n" + "".join(f"import {m}\n" for _, _, m in EXTRA.get(pid, [])))
+        f.write(f"import RitiModel.Props.{pid}\n" + ("" if skip else "import RitiModel.Tie\n") + "".join(f"import {m}\n" for _, _, m in EXTRA.get(pid, [])))
         for t in ths: f.write(f"#print axioms {t}\n")
     rc, out = sh(["lake", "env", "lean", tmp], cwd=LEAN, timeout=900)
     res = []; problems = []
@@ -168,6 +198,9 @@ def main():
     os.makedirs(os.path.join(VERIF, "replays"), exist_ok=True)
     broken = []          # names of proof obligations / ties that no longer check
     log = []
+    fallback = []; extra_notes = []
+    streams = list(cfg["streams"])
+    if any(i in DYNAMIC_TIE for i in cfg["items"]) and "tie" not in streams: streams.append("tie")
 
     # 1–3: translator, Lean build, audit (serialised: they share lean/.lake)
     with Lock("lean"):
@@ -175,10 +208,25 @@ def main():
         try: tr = json.loads(out.strip().splitlines()[0])
         except Exception: tr = {"changed": [], "failed": [{"item": "translator", "why": out[-300:]}]}
         for f in tr.get("failed", []):
-            if f["item"] in cfg["items"] or f["item"] in ("translator", "logicconsts", "panicsites"):
-                broken.append(f"translator:{f['item']} ({f['why']})")
+            it = f["item"]
+            if it in DYNAMIC_TIE and it in cfg["items"]:
+                # the table of the last successful translation stays in place; stream `tie` (always run for these items)
+                # compares it with the implementation on the COMPLETE domain: agreement there = the table is still right
+                fallback.append(it); extra_notes.append(f"translator could not read item {it} ({f['why'][:120]}): decided by the complete-domain correspondence of stream tie instead")
+            elif it in SOFT_TIE:
+                # bonus tie of literals the hand-written model hard-codes: unreadable source shape = this extra tie is
+                # unavailable, the literals remain covered by the correspondence streams (a literal that is READ and differs
+                # still breaks a theorem of RitiModel/Tie.lean)
+                extra_notes.append(f"tie of model literals unavailable: translator could not read {it} ({f['why'][:120]})")
+            elif it.startswith("charclasses."):
+                # one definition of Gen/CharClasses.lean kept its previous value: counts for the properties whose theorems use it
+                sub = it.split(".", 1)[1]
+                if "charclasses" in cfg["items"] and sub in cc_scope(pid): broken.append(f"translator:{it} ({f['why']})")
+                else: extra_notes.append(f"translator could not read {it} ({f['why'][:100]}); the theorems of {pid} do not depend on it")
+            elif it in cfg["items"] or it == "translator" or (it == "panicsites" and pid == "C01"):
+                broken.append(f"translator:{it} ({f['why']})")
         log.append(f"translate: changed={tr.get('changed')} failed={[f['item'] for f in tr.get('failed', [])]}")
-        targets = [f"RitiModel.Props.{pid}", "RitiModel.Tie", "driver"] + [m for _, _, m in EXTRA.get(pid, [])]
+        targets = [f"RitiModel.Props.{pid}", "driver"] + [m for _, _, m in EXTRA.get(pid, [])]
         if pid in SAMPLES: targets += SAMPLES[pid][0] + (SAMPLES[pid][1] if tier == "thorough" else [])
         rc, out = sh(["lake", "build"] + targets, cwd=LEAN, timeout=3000)
         theorems = []
@@ -199,7 +247,23 @@ def main():
             driver_ok = os.path.exists(DRIVER) and sh(["lake", "build", "driver"], cwd=LEAN, timeout=3000)[0] == 0
         else:
             driver_ok = True
-            ok, theorems, problems = audit(pid)
+            # RitiModel/Tie.lean (model literals against the regenerated constants) is built on its own: a theorem of it that
+            # fails counts for this property only when the property's theorems depend on that part of the model
+            rc_t, out_t = sh(["lake", "build", "RitiModel.Tie"], cwd=LEAN, timeout=3000)
+            tie_failed = set()
+            if rc_t != 0:
+                tsrc = open(os.path.join(LEAN, "RitiModel", "Tie.lean"), encoding="utf-8").read().splitlines()
+                for l in out_t.splitlines():
+                    m = re.match(r'error: RitiModel/Tie\.lean:(\d+):\d+', l)
+                    if not m: continue
+                    for k in range(min(int(m.group(1)), len(tsrc)) - 1, -1, -1):
+                        mm = re.match(r'\s*theorem\s+([\w\.\']+)', tsrc[k])
+                        if mm: tie_failed.add(mm.group(1)); break
+                if not tie_failed: broken.append("theorem:RitiModel/Tie.lean does not build: " + out_t[-300:])
+            in_scope = sorted(t for t in tie_failed if t in tie_scope(pid))
+            if in_scope: broken.append("theorem:RitiModel/Tie.lean:" + ",".join(in_scope) + " (a literal of the hand-written model differs from the constant read from the source)")
+            for t in sorted(tie_failed - set(in_scope)): extra_notes.append(f"Tie.{t} no longer checks; the theorems of {pid} do not depend on that part of the model")
+            ok, theorems, problems = audit(pid, skip=tie_failed)
             if not ok: broken.append("audit:" + "; ".join(problems)[:500])
     # 4: harness
     with Lock("cargo"):
@@ -217,7 +281,7 @@ def main():
     # 5: streams
     reports = []; traces = []; crash_violations = []
     if harness_ok:
-        for s in cfg["streams"]:
+        for s in streams:
             cmd = [HBIN, s, "--tier", tier, "--seed", str(seed), "--out", outdir]
             if a.replay: cmd += ["--replay", a.replay]
             rc, out = sh(cmd, timeout=6 * 3600)
@@ -255,7 +319,7 @@ def main():
                 if summ.get("missing", 0): mism.append(f"MISMATCH {summ['missing']} model look-ups had no table entry in {os.path.basename(trace)}")
                 mismatches += [(trace, m) for m in mism]
         if mismatches:
-            broken.append(f"correspondence:{cfg['streams']} {len(mismatches)} lines differ, first: {mismatches[0][1][:400]}")
+            broken.append(f"correspondence:{streams} {len(mismatches)} lines differ, first: {mismatches[0][1][:400]}")
     elif not driver_ok:
         broken.append("driver does not build")
 
@@ -325,7 +389,8 @@ def main():
             "slowest_event_s": max([r.get("slowest_event_s", 0) for r in reports] + [0]),
             "known_findings_seen": sorted(known_hit.keys()),
             "broken": broken,
-            "notes": [n for r in reports for n in r.get("notes", [])],
+            "notes": [n for r in reports for n in r.get("notes", [])] + extra_notes,
+            "translator_fallback": fallback,
         },
         "assumptions": ["see coverage.trusted_base", "layout files have the documented shape; commit indices are inside the displayed list (in-contract calls)"],
         "wall_s": round(time.time() - t0, 2),
@@ -339,6 +404,7 @@ def main():
         shutil.rmtree(os.path.join(outdir, "tsv"), ignore_errors=True)
     for l in log: print("  " + l.replace("\n", "\n  "))
     print(f"  theorems checked: {len(theorems)}; oracle evaluations: {evaluations}; model ops replayed: {ops}; mismatches: {len(mismatches)}; wall {ev['wall_s']}s")
+    for n in extra_notes: print("  note: " + n)
     for l in lines: print(l)
     if exit_code == 0: print(f"OK property={pid} tier={tier}")
     sys.exit(exit_code)
